@@ -42,7 +42,11 @@ def judge_batch(ctx, items):
     deltas = []
     for case, res in items:
         sc = scale_of(case.B)
-        delta = DELTA_REL * sc
+        # the float code forms `norm - cost`: its rounding is relative to the larger of the two magnitudes
+        cmax = Fraction(0)
+        if case.kind == "ccqr" and case.costs is not None and len(case.costs):
+            cmax = max(abs(C.frac(c)) for c in case.costs.tolist())
+        delta = DELTA_REL * max(sc, cmax)
         deltas.append((delta, sc))
         reqs.append(case.req_replay(res["offsets"], delta, verbose=True))
     resp = ctx.driver.ask(reqs)
